@@ -80,7 +80,7 @@ def strategy(tier):
 
 
 def examples(tier):
-    return 960 if tier == "quick" else 20000
+    return 960 if tier == "quick" else 50000
 
 
 def run_case(case):
